@@ -186,6 +186,33 @@ def seeded_variants(prop_id: str) -> List[Variant]:
     return out
 
 
+def twin_variants(prop_id: str) -> List[Variant]:
+    """The independently written behaviour-preserving refactorings under /verif/twins that are a regression case for this
+    property: those written against this property, and those on which this property's check once raised a false alarm
+    (meta.json: false_alarms_raised_while_hardening).  Each must stay silent; one the check cannot read (recorded in
+    checks_analysis_error) is left out."""
+    import glob
+    import json as _json
+    out: List[Variant] = []
+    root = os.path.join(os.path.dirname(os.path.dirname(os.path.abspath(__file__))), 'twins')
+    for mp in sorted(glob.glob(os.path.join(root, 'C*', '*', 'meta.json'))):
+        try:
+            with open(mp, encoding='utf-8') as fh:
+                meta = _json.load(fh)
+        except (OSError, ValueError):
+            continue
+        if prop_id != meta.get('property') and prop_id not in meta.get('false_alarms_raised_while_hardening', []):
+            continue
+        if prop_id in meta.get('checks_analysis_error', []):
+            continue
+        d = os.path.dirname(mp)
+        v = PatchVariant('refactoring-' + os.path.relpath(d, root).replace(os.sep, '-'), os.path.join(d, 'patch.diff'), None,
+                         meta.get('title', '')[:100])
+        v.kind = 'twin'
+        out.append(v)
+    return out
+
+
 def _run_variant(args):
     prop_id, ss, v, base_keys = args
     try:
@@ -215,7 +242,7 @@ def _run_variant(args):
 
 def selftest(prop_id: str, ss: SourceSet, base: Report, jobs: int = 16) -> Dict[str, Any]:
     mod = load_prop(prop_id)
-    variants: List[Variant] = list(getattr(mod, 'VARIANTS', [])) + seeded_variants(prop_id)
+    variants: List[Variant] = list(getattr(mod, 'VARIANTS', [])) + seeded_variants(prop_id) + twin_variants(prop_id)
     base_keys = {f.key for f in base.findings}
     work = [(prop_id, ss, v, base_keys) for v in variants]
     if not work:
